@@ -92,6 +92,17 @@ PROPS = {
         "assumptions": ["net.ParseIP / IP.String are environment (table supplied by the harness, formatter re-implemented in the driver)",
                         "names and files are ASCII (strings.ToLower / strings.Fields are Unicode-aware in Go)"],
     },
+    "C16": {
+        "proof_files": ["Proofs/ListenFacts.v", "Mutants/ListenRace.v"],
+        "runs": [{"engine": "listen", "args": [], "n_quick": 120, "n_thorough": 5000, "netns": True}],
+        "trivial_tags": [],
+        "rule": "1-4 listen addresses (127.0.0.1, 127.0.0.2, ::1), every address independently free / UDP busy / TCP busy / both busy, "
+                "cancellation: none, immediate, after 1 ms, after the listeners are ready, at a random sub-3ms delay; judged by the extracted "
+                "c16_ok spec: returned within the 2 s watchdog, every address can be bound again at once, non-nil error, and the bind error "
+                "when a bind failed and nobody cancelled. Every run is in the quantifier (non-trivial = all)",
+        "assumptions": ["proxySvc.start (package main): the starter is already receiving when ListenAndServe fails; not exercised here",
+                        "fair scheduling by the Go runtime"],
+    },
     "C18": {
         "proof_files": ["Proofs/DiscoveryFacts.v", "Proofs/ConfigFacts.v"],
         "runs": [{"engine": "discovery", "args": [], "n_quick": 2500, "n_thorough": 200000},
